@@ -154,7 +154,17 @@ class Default(AgentStagingInputComponent):
             self._prof.prof('staging_in_start', uid=uid, msg=did)
 
             # agent stager only handles local actions
-            if action not in [rpc.COPY, rpc.LINK, rpc.MOVE, rpc.DOWNLOAD]:
+            if action not in [rpc.COPY, rpc.LINK, rpc.MOVE, rpc.DOWNLOAD,
+                              rpc.TARBALL]:
+                self._prof.prof('staging_in_skip', uid=uid, msg=did)
+                continue
+
+            # The tmgr stager packed the sources of all TARBALL directives of
+            # this task into one tarball, transferred it to `task:///<uid>.tar`
+            # and appended one directive for that file.  Only that directive
+            # triggers the extraction, which enacts the original ones.
+            if action == rpc.TARBALL and \
+                    os.path.basename(str(tgt)) != '%s.tar' % uid:
                 self._prof.prof('staging_in_skip', uid=uid, msg=did)
                 continue
 
